@@ -3,7 +3,16 @@
 A case = an "open record" (SEQUENCE/SET with a governing INTEGER/OID member and an ANY, tagged ANY,
 or SEQUENCE OF/SET OF ANY member carrying an OpenType map), a governing value, typed inner value(s),
 an optional caller override map; evaluated under {BER def, BER indef, CER, DER} x {decodeOpenTypes}
-x {openTypes override absent/present}."""
+x {openTypes override absent/present}.
+
+The governing member is mandatory, DEFAULT or OPTIONAL.  The governing value of a record (`case['gov']`)
+is the member's value when it has one, the declared default when a DEFAULT member is left unset (or set
+to a value equal to the default: either way every codec leaves it out of the encoding), and None when an
+OPTIONAL member is left out.  The expectation follows the specification (Coq: Model/OpenTypeDef.v
+expected_type): the open member is resolved to the mapped type iff resolution is on and the governing
+value - explicit or defaulted - is in the map in force; otherwise it holds the complete encoding.  A
+record without a governing value is outside the property's quantifier when resolution is on (the decoder
+raises; only the correspondence with the model is checked there); with resolution off it must stay raw."""
 from harness import core, codec, universe as U, implrun as I, gen
 from harness.coqio import cbool, cbytes, clist, cnat
 from harness.gen import base_desc
@@ -11,7 +20,7 @@ core.use_repo()
 from pyasn1.type import univ, namedtype, opentype, base
 
 MODES = [('BER', True), ('BER', False), ('CER', None), ('DER', None)]
-IMPORTS = 'Model.Enc Model.Dec Model.Obs Model.OpenType'
+IMPORTS = 'Model.Enc Model.Dec Model.Obs Model.OpenType Model.OpenTypeDef'
 UNIV_NUM = {'bool': 1, 'int': 2, 'bits': 3, 'octs': 4, 'null': 5, 'oid': 6, 'real': 9, 'enum': 10,
             'seq': 16, 'seqof': 16, 'set': 17, 'setof': 17}
 
@@ -66,6 +75,36 @@ def gov_key(g):
     return g[1] if g[0] == 'i' else univ.ObjectIdentifier(tuple(g[1]))
 
 
+def is_def(p):
+    return isinstance(p, (tuple, list)) and p[0] == 'def'
+
+
+def gov_presence(case):
+    p = case['fields'][case['gi']][0]
+    return 'def' if is_def(p) else p
+
+
+def effective_gov(case):
+    """the governing value of the record by the specification (twin of Coq effective_gov): the member's
+    value, else the declared default of a DEFAULT member, else none"""
+    p = case['fields'][case['gi']][0]
+    fv = case['vals'][case['gi']]
+    if fv is not None:
+        return tuple(fv)
+    if is_def(p):
+        return tuple(p[1])
+    return None
+
+
+def gov_on_wire(case):
+    """is the governing member part of the encoding (DEFAULT: only when the value differs from the default)"""
+    p = case['fields'][case['gi']][0]
+    fv = case['vals'][case['gi']]
+    if fv is None:
+        return False
+    return not (is_def(p) and tuple(p[1]) == tuple(fv))
+
+
 def lookup(m, g):
     for k, T in (m or []):
         if k == g:
@@ -88,8 +127,11 @@ def build_spec(case):
         kw = {}
         if i == oi:
             kw['openType'] = opentype.OpenType('f%d' % gi, dict((gov_key(g), U.build_type(T)) for g, T in case['map']))
-        cls = namedtype.NamedType if p == 'req' else namedtype.OptionalNamedType
-        nts.append(cls('f%d' % i, t, **kw))
+        if is_def(p):
+            nts.append(namedtype.DefaultedNamedType('f%d' % i, U.build_value(ft, p[1]), **kw))
+        else:
+            cls = namedtype.NamedType if p == 'req' else namedtype.OptionalNamedType
+            nts.append(cls('f%d' % i, t, **kw))
     return (univ.Sequence if case['outer'] == 'seq' else univ.Set)(componentType=namedtype.NamedTypes(*nts))
 
 
@@ -194,6 +236,8 @@ def gen_case(ctx, g):
     fields, vals = [], []
     gi = oi = None
     seen_open = False
+    # the governing member: mandatory, DEFAULT (presence filled in below, once the value is known) or OPTIONAL
+    gpres = rng.choice(['req', 'req', 'req', 'def', 'def', 'def', 'opt'])
     for i, (role, ft) in enumerate(members):
         if role == 'open':
             oi = i
@@ -202,7 +246,7 @@ def gen_case(ctx, g):
             fields.append((p, ft)); vals.append(None)
         elif role == 'gov':
             gi = i
-            fields.append(('req', ft)); vals.append(None)
+            fields.append((gpres, ft)); vals.append(None)
         else:
             # OPTIONAL members only after a bare ANY cannot precede it (the ANY would be the run's catch-all)
             p = 'opt' if (rng.random() < .4 and (not bare_any or seen_open or outer == 'set') and not (bare_any and outer == 'set')) else 'req'
@@ -214,7 +258,11 @@ def gen_case(ctx, g):
         for i, (p, ft) in enumerate(fields):
             if i != oi:
                 avoid |= gen.outer_tags(ft)
-    need_tag = bare_any and outer == 'set'
+    # a governing member that may be left out in front of a bare ANY: the ANY is the catch-all of its run
+    gov_run = bare_any and outer == 'seq' and gpres != 'req' and gi < oi
+    if gov_run:
+        avoid |= gen.outer_tags(fields[gi][1])
+    need_tag = (bare_any and outer == 'set') or gov_run
     # the default map
     keys = []
     while len(keys) < rng.choice([1, 2, 3, 4]):
@@ -249,7 +297,27 @@ def gen_case(ctx, g):
     else:
         gv = fresh; Tin = gen_inner_type(g, rng, avoid, need_tag)
         ov = [(gv, Tin)] + ([(keys[0], gen_inner_type(g, rng, avoid, need_tag))] if rng.random() < .3 else [])
-    vals[gi] = gv if gkind == 'i' else ('oid', tuple(gv[1]))
+    vals[gi] = gv = gv if gkind == 'i' else ('oid', tuple(gv[1]))
+    gform = 'explicit'
+    if gpres == 'def':
+        if rng.random() < .6:
+            # the value equals the default: left unset or set explicitly, never on the wire
+            fields[gi] = (('def', gv), fields[gi][1])
+            gform = 'default-unset' if rng.random() < .5 else 'default-set'
+            if gform == 'default-unset':
+                vals[gi] = None
+        else:
+            # another default (often one the map knows): the explicit value must win
+            others = [k for k in keys + [fresh] if k != gv]
+            d = rng.choice(others) if (others and rng.random() < .7) else None
+            while d is None or d == gv:
+                d = gen_gov(rng, gkind)
+            fields[gi] = (('def', d), fields[gi][1])
+            gform = 'default-differs'
+    elif gpres == 'opt' and rng.random() < .6:
+        vals[gi] = None
+        gform = 'optional-absent'
+        kind = 'nogov'
     if listkind:
         inner = [(Tin, g.val(Tin)) for _ in range(rng.choice([0, 1, 1, 2, 3]))]
     else:
@@ -257,8 +325,10 @@ def gen_case(ctx, g):
     present = True
     if fields[oi][0] == 'opt' and rng.random() < .15:
         present = False
-    return {'outer': outer, 'fields': fields, 'vals': vals, 'gi': gi, 'oi': oi, 'map': dmap, 'override': ov,
-            'gov': gv, 'inner': inner, 'present': present, 'kind': kind, 'tagging': tagging, 'list': listkind}
+    case = {'outer': outer, 'fields': fields, 'vals': vals, 'gi': gi, 'oi': oi, 'map': dmap, 'override': ov,
+            'inner': inner, 'present': present, 'kind': kind, 'tagging': tagging, 'list': listkind, 'gform': gform}
+    case['gov'] = effective_gov(case)
+    return case
 
 
 def targeted():
@@ -274,6 +344,7 @@ def targeted():
     inner_of = {1: ('i', 12), 2: ('o', b'quick brown'), 3: seqV, 4: ('ch', 1, ('o', b'xy')), 5: ('i', 5), 6: ('i', 300),
                 7: ('any', b'\x04\x01\x07'), 8: ('list', [('i', 256), ('i', 1), ('i', -1)])}
     anys = [('any',), ('imp', (128, 0, 3), ('any',)), ('exp', (128, 0, 3), ('any',))]
+    omap = [(('oid', (1, 3, 6, 1, 1)), ('str', 'UTF8String')), (('oid', (1, 3, 6, 1, 2)), seqT)]
     for outer in ('seq', 'set'):
         for a in anys:
             for lk in (None, 'seqof', 'setof'):
@@ -296,8 +367,49 @@ def targeted():
                                     'gi': 0, 'oi': 1, 'map': dmap, 'override': ov, 'gov': ('i', gnum),
                                     'inner': [(T_in, v_in)] * n, 'present': True, 'kind': kind,
                                     'tagging': {'any': 'untagged', 'imp': 'implicit', 'exp': 'explicit'}[a[0]], 'list': lk})
+    # governing member DEFAULT / OPTIONAL: the value equals the default (left unset, or set: never on the wire),
+    # differs from it (on the wire, and wins), the default is unmapped, the OPTIONAL member is left out
+    gov_forms = [('default-unset', ('def', ('i', 3)), None, ('i', 3)), ('default-set', ('def', ('i', 3)), ('i', 3), ('i', 3)),
+                 ('default-differs', ('def', ('i', 2)), ('i', 3), ('i', 3)), ('default-differs', ('def', ('i', 3)), ('i', 2), ('i', 2)),
+                 ('default-unset', ('def', ('i', 7)), None, ('i', 7)), ('optional-absent', 'opt', None, None),
+                 ('explicit', 'opt', ('i', 3), ('i', 3))]
+    for outer in ('seq', 'set'):
+        for a in anys:
+            for lk in (None, 'seqof', 'setof'):
+                oft = (lk, a) if lk else a
+                for gform, gp, gval, geff in gov_forms:
+                    for gfirst in (True, False):
+                        Tin = lookup(dmap, geff) if geff is not None else None
+                        if Tin is None:
+                            T_in, v_in, kind = ('octs',), ('o', b'raw'), ('unmapped' if geff is not None else 'nogov')
+                        else:
+                            T_in, v_in, kind = Tin, inner_of[geff[1]], 'mapped'
+                        fields = [(gp, ('int',)), ('req', oft)]
+                        vals = [gval, None]
+                        if not gfirst:
+                            fields.reverse(); vals.reverse()
+                        case = {'outer': outer, 'fields': fields, 'vals': vals, 'gi': 0 if gfirst else 1, 'oi': 1 if gfirst else 0,
+                                'map': dmap, 'override': None, 'inner': [(T_in, v_in)] * (2 if lk else 1), 'present': True,
+                                'kind': kind, 'tagging': {'any': 'untagged', 'imp': 'implicit', 'exp': 'explicit'}[a[0]], 'list': lk,
+                                'gform': gform}
+                        case['gov'] = effective_gov(case)
+                        assert case['gov'] == geff
+                        out.append(case)
+    # OID-governed with a DEFAULT, caller's map deciding
+    for gval in (None, ('oid', (1, 3, 6, 1, 1))):
+        for ov in (None, [(('oid', (1, 3, 6, 1, 2)), ('octs',))]):
+            case = {'outer': 'seq', 'fields': [('req', ('exp', (128, 0, 0), ('any',))), (('def', ('oid', (1, 3, 6, 1, 2))), ('oid',))],
+                    'vals': [None, gval], 'gi': 1, 'oi': 0, 'map': omap, 'override': ov, 'present': True, 'tagging': 'explicit', 'list': None,
+                    'gform': 'default-unset' if gval is None else 'default-differs'}
+            if gval is None:
+                case['inner'] = [(('octs',), ('o', b'ov'))] if ov else [(seqT, seqV)]
+                case['kind'] = 'ov_diff' if ov else 'mapped'
+            else:
+                case['inner'] = [(('str', 'UTF8String'), ('chars', 'h\xe9'))]
+                case['kind'] = 'mapped'
+            case['gov'] = effective_gov(case)
+            out.append(case)
     # OID-governed, governing member after the open one, unmapped value
-    omap = [(('oid', (1, 3, 6, 1, 1)), ('str', 'UTF8String')), (('oid', (1, 3, 6, 1, 2)), seqT)]
     for gv, Tin, vin, kind in ((('oid', (1, 3, 6, 1, 2)), seqT, seqV, 'mapped'),
                                (('oid', (1, 3, 6, 1, 1)), ('str', 'UTF8String'), ('chars', 'h\xe9'), 'mapped'),
                                (('oid', (1, 3, 6, 1, 9)), ('null',), ('null',), 'unmapped')):
@@ -341,12 +453,20 @@ def evaluate(case, cname, defm, dot, use_ov):
     oi = case['oi']
     p_open, oft = case['fields'][oi]
     resolve_on = dot or bool(ov)
+    # the expectation, from the specification alone (Coq twin: Model/OpenTypeDef.expected_type): the governing value
+    # of the record - explicit or defaulted - looked up in the caller's map, then in the declared one
+    gov = effective_gov(case)
     effT = None
-    if resolve_on:
-        effT = lookup(ov, case['gov'])
+    if resolve_on and gov is not None:
+        effT = lookup(ov, gov)
         if effT is None:
-            effT = lookup(case['map'], case['gov'])
+            effT = lookup(case['map'], gov)
     res['effT'] = effT
+    if resolve_on and gov is None and case['present']:
+        # no governing value at all (OPTIONAL governing member left out): not a case of the property's
+        # "forall governing values"; what the decoder does then is compared with the model only
+        res['no_expectation'] = True
+        res['no_governing_value'] = True
     lst = is_list_field(oft)
     # the type the open member is read against (mirrors the model's answer)
     if effT is not None and case['present']:
@@ -365,6 +485,13 @@ def evaluate(case, cname, defm, dot, use_ov):
     fs = []
     for i, (p, ft) in enumerate(case['fields']):
         c = field_obj(got, i)
+        if c is None and is_def(p):
+            # a DEFAULT member that was not decoded: the record still has a value there; read it as a caller would
+            try:
+                c = got.getComponentByPosition(i)
+                c = c if (c is not None and c is not base.noValue and c.isValue) else None
+            except Exception:
+                c = None
         if c is None:
             fs.append(None)
         else:
@@ -380,7 +507,7 @@ def evaluate(case, cname, defm, dot, use_ov):
     for i, ((p, ft), fv) in enumerate(zip(case['fields'], case['vals'])):
         if i == oi:
             continue
-        w = None if fv is None else want_abs(ft, fv)
+        w = want_abs(ft, fv) if fv is not None else (want_abs(ft, p[1]) if is_def(p) else None)
         if not (fs[i] is None and w is None) and not (fs[i] is not None and w is not None and U.aval_eq(fs[i], w)):
             res['fails'].append('member %d of the record does not round-trip' % i)
     c = field_obj(got, oi)
@@ -526,7 +653,7 @@ def model_expr_group(case, cname, defm, runs):
         for dot, use_ov, res in runs:
             if res['impl_lit'] is None:
                 continue
-            codes.append('open_code (dec_open_after %s T %s %s dm %s %s b r) %s' % (
+            codes.append('open_code (dec_open_after_d %s T %s %s dm %s %s b r) %s' % (
                 cname, cnat(case['gi']), cnat(case['oi']), 'ov' if use_ov else '(@nil (val * ty))', cbool(dot), res['impl_lit']))
     return '%s worst %s' % (' '.join(lets), clist(codes))
 
@@ -541,7 +668,8 @@ def variants(case):
 
 
 def run(ctx):
-    ctx.rule = ('open records: SEQUENCE/SET with a governing INTEGER or OID member (sometimes tagged), 0-2 tagged siblings (some OPTIONAL), and '
+    ctx.rule = ('open records: SEQUENCE/SET with a governing INTEGER or OID member (sometimes tagged; mandatory, DEFAULT with the value equal '
+                'to the default - unset or set, never on the wire - or different from it, or OPTIONAL present/left out), 0-2 tagged siblings (some OPTIONAL), and '
                 'an open member ANY / [t] IMPLICIT ANY / [t] EXPLICIT ANY / SEQUENCE OF or SET OF of these, mandatory or OPTIONAL; default map of '
                 '1-4 governing values to inner types of the universe (depth<=2, constructed ones included); governing value mapped / unmapped / '
                 'mapped by the caller to a different type / added by the caller; inner value(s) of the effective type; x {BER def, BER indef, CER, DER} '
@@ -564,7 +692,9 @@ def run(ctx):
         ctx.stats['tagging:' + case['tagging']] += 1
         ctx.stats['field:' + (case['list'] or 'scalar')] += 1
         ctx.stats['kind:' + case['kind']] += 1
-        ctx.stats['gov:' + case['gov'][0]] += 1
+        ctx.stats['gov:' + base_desc(case['fields'][case['gi']][1])[0]] += 1
+        ctx.stats['governing member:%s/%s/%s' % (gov_presence(case), case.get('gform', 'explicit'),
+                                                 'on the wire' if gov_on_wire(case) else 'not on the wire')] += 1
         for T, _ in case['inner'][:1]:
             ctx.stats['inner:' + base_desc(T)[0]] += 1
         for cname, defm in MODES:
@@ -592,8 +722,12 @@ def run(ctx):
                 ctx.stats['decode:%s/%s' % ('on' if dot else 'off', 'override' if use_ov else 'no-override')] += 1
                 if res.get('effT') is not None: ctx.stats['resolved'] += 1
                 else: ctx.stats['raw'] += 1
-                if res.get('no_expectation'):
+                if res.get('no_governing_value'):
+                    ctx.stats['no-expectation(resolution on, no governing value: OPTIONAL governing member left out)'] += 1
+                elif res.get('no_expectation'):
                     ctx.stats['no-expectation(map in force names another type)'] += 1
+                if res.get('effT') is not None and not gov_on_wire(case):
+                    ctx.stats['resolved by a defaulted governing value'] += 1
                 if res['fails'] and not res.get('no_expectation'):
                     ctx.prop_fail('open type: ' + res['fails'][0], m, finding=fid)
                     ctx.stats['prop_fail:' + (fid or 'unexplained')] += 1
@@ -630,6 +764,7 @@ def replay(data):
     cname, defm = m.get('codec', 'BER'), m.get('defMode', True)
     vs = [tuple(v) for v in m['variants']] if 'variants' in m else [(m.get('decodeOpenTypes', True), m.get('use_override', False))]
     print('record  :', outer_desc(case)); print('values  :', case['vals']); print('map     :', case['map'])
+    print('governing value (explicit or defaulted):', effective_gov(case), '(on the wire)' if gov_on_wire(case) else '(not on the wire)')
     print('override:', case['override']); print('inner   :', case['inner'])
     print('codec   :', cname, '' if defm is None else ('definite' if defm else 'indefinite'), '(class %s)' % classify(case, cname, defm))
     T = U.coq_ty(outer_desc(case))
@@ -644,7 +779,7 @@ def replay(data):
         print('decoded :', res.get('observed') if res.get('dec') and res['dec'][0] == 'ok' else res.get('dec'))
         print('property:', ('no expectation; ' if res.get('no_expectation') else '') + (str(res['fails']) if res['fails'] else 'holds'))
         if res['enc'] and res['enc'][0] == 'ok':
-            print('model   :', core.coq_show(IMPORTS, 'dec_open %s %s %s %s %s %s %s %s' % (
+            print('model   :', core.coq_show(IMPORTS, 'dec_open_d %s %s %s %s %s %s %s %s' % (
                 cname, T, cnat(case['gi']), cnat(case['oi']), coq_map(case['map']), coq_map(case['override'] if use_ov else None),
                 cbool(dot), cbytes(res['enc'][1]))))
     return 0
